@@ -571,20 +571,28 @@ class Twister:
         gen = [(n, float(v)) for n, v in self.th if n.startswith('g')]
         variants = [('list', None), ('tuple', None), ('ndarray', None)]
         variants += [(f, g) for g in gen for f in ('list1', 'ndarray1')]     # one-element vectors
+        # vectors of exactly 2, 3, 4, 6, 7 joint values (the lengths of the twist vectors and of the rows of the matrices: shapes that broadcast
+        # against the twist itself)
+        variants += [('%s#%d' % (f, k), ('#', k)) for k in (2, 3, 4, 6, 7) for f in ('list', 'ndarray')]
         for unit in ('rad', 'deg'):
             for form, g1 in variants:
-                cid = self.start('vec/%s/%s%s' % (unit, form, '' if g1 is None else '[%s]' % g1[0]))
+                cid = self.start('vec/%s/%s%s' % (unit, form, '' if (g1 is None or g1[0] == '#') else '[%s]' % g1[0]))
                 if not cid:
                     continue
                 S = self.twist()
                 if S is None:
                     return
-                if g1 is not None:
+                if g1 is not None and g1[0] == '#':
+                    pick = [i for i, n_ in enumerate(names) if n_ != '0'][:g1[1]]
+                    if len(pick) < g1[1]:
+                        continue
+                    nm, vv = [names[i] for i in pick], [vals[i] for i in pick]
+                elif g1 is not None:
                     nm, vv = [g1[0]], [g1[1]]
                 else:
                     nm, vv = names, vals
                 send = [math.degrees(v) for v in vv] if unit == 'deg' else list(vv)
-                arg = {'list': list, 'tuple': tuple, 'ndarray': np.array, 'list1': list, 'ndarray1': np.array}[form](send)
+                arg = {'list': list, 'tuple': tuple, 'ndarray': np.array, 'list1': list, 'ndarray1': np.array}[form.split('#')[0]](send)
                 ctx.case(cid, key=self.key0 + ('vec', unit, form, tuple(vv)), n=len(vv))
                 p = self.params(method='vec', unit=unit, form=form)
                 ok, got = call(S.exp, arg, unit)
@@ -633,6 +641,27 @@ class Twister:
                 ctx.fail(cid, site, 'mismatch', p, 'isprismatic is %r for a %s twist' % (got, kind))
             else:
                 ctx.cell(site, kind, bool(got))
+        # the same question after twists of every other kind have been built in the meantime (a joint list is built first and queried later):
+        # the answer belongs to the object
+        cid, S = acc('isprismatic/later')
+        if cid:
+            import spatialmath as sm_
+            p = self.params(method='isprismatic', later=1)
+            site = cn + '.isprismatic'
+            for on, mk in (('Twist3.Revolute', lambda: sm_.Twist3.Revolute([0, 0, 1], [1, 2, 0])), ('Twist3.Prismatic', lambda: sm_.Twist3.Prismatic([0, 1, 0])),
+                           ('Twist2.Revolute', lambda: sm_.Twist2.Revolute([1, 2])), ('Twist2.Prismatic', lambda: sm_.Twist2.Prismatic([0, 1])),
+                           ('Twist3(v)', lambda: sm_.Twist3([1.0, 2, 3, 0, 0, 0])), ('Twist3(SE3)', lambda: sm_.Twist3(sm_.SE3.Rx(0.3)))):
+                ok0, other = call(mk)
+                ok, got = call(lambda: S.isprismatic)
+                if ok and isinstance(got, (bool, np.bool_)) and bool(got) != (kind == 'prismatic'):
+                    ctx.fail(cid, site, 'mismatch', dict(p, other=on), 'isprismatic is %r for a %s twist once a %s has been built after it' % (got, kind, on))
+                    break
+                if ok0 and other is not None:
+                    ok2, g2 = call(lambda: other.isprismatic)
+                    want2 = on.endswith('Prismatic') or on == 'Twist3(v)'
+                    if ok2 and isinstance(g2, (bool, np.bool_)) and bool(g2) != want2:
+                        ctx.fail(cid, on.split('(')[0] + '.isprismatic', 'mismatch', dict(p, other=on), 'isprismatic of a fresh %s is %r while a %s %s is alive' % (on, g2, kind, cn))
+                        break
         # exp() without argument: theta = 1
         cid, S = acc('exp()')
         if cid:
